@@ -517,6 +517,8 @@ impl Ctx {
             Some(false) => std::panic::panic_any(EngineAbort("assumption is false on this path".into())),
             None => {
                 self.pc.push(c);
+                // under a replayed decision prefix the parent path already established feasibility
+                if self.decisions.len() < self.prefix.len() { return; }
                 // keep the path feasible: an infeasible assumption ends the path (vacuity is tracked by the caller)
                 let (r, _, _) = self.query(&[], false);
                 if r == Sat::Unsat { std::panic::panic_any(EngineAbort("assumption infeasible on this path".into())); }
@@ -525,6 +527,9 @@ impl Ctx {
     }
     pub fn oblige(&mut self, label: &str, c: Cond<Sym>) {
         if !self.check_obligations { return; }
+        // Stated before the replayed decision prefix is exhausted: the parent path stated the same
+        // obligation under the identical path condition and it was decided there.
+        if self.mode == Mode::Symbolic && self.decisions.len() < self.prefix.len() { return; }
         self.stats.obligations += 1;
         if let Cond::Ident(a, b) = &c { if a.0 == b.0 { self.stats.discharged += 1; self.stats.discharged_ident += 1; return; } }
         let conc = if self.mode == Mode::Exact && self.approx { self.concrete_tol(&c, false).or_else(|| self.concrete(&c)) } else { self.concrete(&c) };
